@@ -269,9 +269,18 @@ package tree
 //@ fn Tree.Add
 //@   requires treeOK(tree) && allSafe() && sepOK() && lockFree(tree)
 //@   ensures [C17] ambiguity-checked-first: called("tree.Tree.checkAmbiguous", 1) && (callresult("tree.Tree.checkAmbiguous", 1, 0) != nil ==>
-//@        result == callresult("tree.Tree.checkAmbiguous", 1, 0) && !called("tree.Tree.getNode", 1))
+//@        result == callresult("tree.Tree.checkAmbiguous", 1, 0) && !called("tree.node.getNode", 1))
 //@   atcall tree.Tree.checkAmbiguous [C17] whole-pattern: arg0 == tree && arg1 == pattern
-//@   atcall tree.Tree.getNode [C17] after-check: arg0 == tree && arg1 == pattern && callresult("tree.Tree.checkAmbiguous", 1, 0) == nil
+//@   ensures [C17] rejected-before-reshaping: result != nil && !called("tree.node.getNode", 1) ==> unchanged("tree.node.children") && unchanged("tree.node.segment") &&
+//@        unchanged("tree.node.handlers") && unchanged("tree.node.indexes") && unchanged("tree.node.parent") && unchanged("tree.node.methodIndex")
+//@   ensures [C17] method-errors-before-reshaping: called("tree.checkMethods", 1) && callresult("tree.checkMethods", 1, 0) != nil ==>
+//@        result == callresult("tree.checkMethods", 1, 0) && !called("tree.node.getNode", 1)
+//@   atcall tree.node.getNode [C17] after-all-checks: arg0 == tree.node && callresult("tree.Tree.checkAmbiguous", 1, 0) == nil &&
+//@        arg1 == callresult("syntax.Interceptors.Split", 1, 0) && callresult("syntax.Interceptors.Split", 1, 1) == nil &&
+//@        called("tree.checkMethods", 1) && callresult("tree.checkMethods", 1, 0) == nil
+//@   atcall syntax.Interceptors.Split [C17] whole-pattern: arg0 == tree.interceptors && arg1 == pattern
+//@   atcall tree.checkMethods [C17] against-the-live-route: arg0 == tree.hasTrace && (len(methods) > 0 ==> arg2 == methods) &&
+//@        ((callresult("tree.Tree.Find", 1, 0) == nil && arg1 == nil) || (callresult("tree.Tree.Find", 1, 0) != nil && arg1 == callresult("tree.Tree.Find", 1, 0).handlers))
 //@   ensures [C03,C05] safe: result == nil ==> allSafe() && sepOK()
 //
 //@ fn New
@@ -342,6 +351,21 @@ package tree
 //@ pred reserved(n *node, m string) = m == "OPTIONS" || m == "HEAD" || (n.root.hasTrace && m == "TRACE")
 //@ pred mapSame(m map[string]T, d0 `(Array String Bool)`, v0 `(Array String Int)`) = dom(m) == d0 && vals(m) == v0
 //
+// validMethods: every method of the list may be installed next to the existing handlers
+//@ pred validMethods(hasTrace bool, handlers map[string]T, methods []string) = forall i int :: 0 <= i && i < len(methods) ==>
+//@      methods[i] != "OPTIONS" && methods[i] != "HEAD" && !(hasTrace && methods[i] == "TRACE") && bit(methods[i]) != 0 && !in(methods[i], handlers) &&
+//@      (forall j int :: 0 <= j && j < i ==> methods[j] != methods[i])
+//
+// checkMethods decides exactly validMethods and touches nothing (C17)
+//@ fn checkMethods
+//@   nopanic
+//@   modifies alloc
+//@   ensures [C17,C08] exact: result == nil <==> validMethods(hasTrace, handlers, methods)
+//@   inv 1 [C17] bound: -1 <= rangeindex && rangeindex < len(methods)
+//@   inv 1 [C17] validated: forall i int :: 0 <= i && i <= rangeindex ==>
+//@        methods[i] != "OPTIONS" && methods[i] != "HEAD" && !(hasTrace && methods[i] == "TRACE") && bit(methods[i]) != 0 && !in(methods[i], handlers) &&
+//@        (forall j int :: 0 <= j && j < i ==> methods[j] != methods[i])
+//
 //@ fn node.addMethods
 //@   requires [C06] lock: heldW(n)
 //@   requires n != nil && n.handlers != nil && n.root != nil && n.root.optionsBuilder != nil && n.root.methodNotAllowedBuilder != nil && n.root.node != nil && n.root.methods != nil &&
@@ -365,16 +389,13 @@ package tree
 //@   cut tree.Tree.buildMethods 1 [C17] valid-before-recount: forall i int :: 0 <= i && i < len(methods) ==> !reserved(n, methods[i]) && bit(methods[i]) != 0 && !old(in(methods[i], n.handlers)) &&
 //@        (forall j int :: 0 <= j && j < i ==> methods[j] != methods[i])
 //@   cut tree.node.buildMethods 1 [C08] installed-before-recount: forall i int :: 0 <= i && i < len(methods) ==> in(methods[i], n.handlers)
-//@   inv 1 [C17] bound: -1 <= rangeindex && rangeindex < len(methods)
-//@   inv 1 [C17] validated: forall i int :: 0 <= i && i <= rangeindex ==> !reserved(n, methods[i]) && bit(methods[i]) != 0 && !in(methods[i], n.handlers) &&
+//@   inv 1 [C08] bound: -1 <= rangeindex && rangeindex < len(methods) && n.handlers == old(n.handlers) && n.handlers != nil
+//@   inv 1 [C17] all-valid: forall i int :: 0 <= i && i < len(methods) ==> !reserved(n, methods[i]) && bit(methods[i]) != 0 && !old(in(methods[i], n.handlers)) &&
 //@        (forall j int :: 0 <= j && j < i ==> methods[j] != methods[i])
-//@   inv 2 [C08] bound: -1 <= rangeindex && rangeindex < len(methods) && n.handlers == old(n.handlers) && n.handlers != nil
-//@   inv 2 [C17] all-valid: forall i int :: 0 <= i && i < len(methods) ==> !reserved(n, methods[i]) && bit(methods[i]) != 0 && !old(in(methods[i], n.handlers)) &&
-//@        (forall j int :: 0 <= j && j < i ==> methods[j] != methods[i])
-//@   inv 2 [C08] so-far: (forall i int :: 0 <= i && i <= rangeindex ==> in(methods[i], n.handlers)) && (forall k string :: old(in(k, n.handlers)) ==> in(k, n.handlers))
-//@   inv 2 [C09] own-chains: (forall i int :: 0 <= i && i <= rangeindex ==> n.handlers[methods[i]] == pure0("tree.ApplyMiddleware", h, methods[i], pattern, n.root.name, ms)) &&
+//@   inv 1 [C08] so-far: (forall i int :: 0 <= i && i <= rangeindex ==> in(methods[i], n.handlers)) && (forall k string :: old(in(k, n.handlers)) ==> in(k, n.handlers))
+//@   inv 1 [C09] own-chains: (forall i int :: 0 <= i && i <= rangeindex ==> n.handlers[methods[i]] == pure0("tree.ApplyMiddleware", h, methods[i], pattern, n.root.name, ms)) &&
 //@        ((exists i int :: 0 <= i && i <= rangeindex && methods[i] == "GET") ==> n.handlers["HEAD"] == pure0("tree.ApplyMiddleware", h, "HEAD", pattern, n.root.name, ms))
-//@   inv 2 [C08] head: (in("HEAD", n.handlers) <==> in("GET", n.handlers)) && (n.root.hasTrace ==> !in("TRACE", n.handlers))
+//@   inv 1 [C08] head: (in("HEAD", n.handlers) <==> in("GET", n.handlers)) && (n.root.hasTrace ==> !in("TRACE", n.handlers))
 
 // The server-wide summary behind "OPTIONS *" (C04): a counter per method, and the root's mask rendered from it.
 //@ pred counted(k string) = k != "" && k != "OPTIONS" && k != "HEAD"
